@@ -166,6 +166,7 @@ def run_shard(binpath, unit, tiercfg, pid, uname, k, seed, statsdir, tier, repla
     env["VERIF_STATS_DIR"] = statsdir
     env["VERIF_KNOWN"] = os.path.join(VERIF, "known_findings.json")
     env["VERIF_TIER"] = tier
+    env["VERIF_PROP"] = pid
     env["VERIF_SHARD"] = str(k)
     env["VERIF_UNIT_SEED"] = str(seed)
     env["VERIF_WORKDIR"] = rundir
